@@ -302,6 +302,18 @@ def check_silent_skip(ctx):
         check_automaton(ctx, "T1-log-no-silent-skip", "drop@%s" % e["l"].split(":")[1], r, 0, step, None,
                         "dropping buffered log bytes ends the call with EOF/BAD_RECORD (the caller abandons a pending fragment)")
     ctx.require(n >= 5, "read_physical_record: buffer resets not found (%d)" % n)
+    # a record is dropped WITHOUT a report only if it is preallocation filler (type 0 and length 0) or
+    # lies before the requested initial offset; every other drop is reported in the same block
+    for b, i, e in r.events("ret"):
+        if const_val(e.get("x")) != BADREC:
+            continue
+        atoms = g.must_at(b, 0)      # facts at the entry of the returning block (resets inside it kill size atoms)
+        reported = any(is_call(x, ("report_corruption", "report_drop")) for x in r.blocks[b].ev[:i])
+        filler = holds(atoms, ("==", "type", 0)) and holds(atoms, ("==", "length", "0"))
+        before = holds(atoms, ("<", "re:.*lr->end_offset.*", "lr->initial_offset"))
+        ctx.check(reported or filler or before, "T2-log-silent-drop-guards", "bad@%s" % e["l"].split(":")[1], r.name, site(r, e),
+                  "unreported drop only for zero-length filler or data before the initial offset",
+                  "a physical record can be dropped without a report; facts %s" % fmt_atoms(atoms))
     # BAD_RECORD is what the zero-length / bad-length / bad-CRC / pre-offset branches return
     rets = [const_val(e.get("x")) for b, i, e in r.events("ret")]
     ctx.check(rets.count(BADREC) >= 4, "T1-log-no-silent-skip", "bad-record-returns", r.name, r.loc,
